@@ -114,12 +114,20 @@ Proof. exact agree_implies_spec_ok. Qed.
 Print Assumptions C18_agree_implies_spec_ok.
 
 (** When the caller's context ends at an arbitrary point the fault script no longer fixes
-    what [Do] returns; what stays fixed, and what part "upx" of the check observes: in
-    every final state Close has returned after [Do] did, and exactly what [Do] returned. *)
+    what [Do] returns; what stays fixed, and what part "upx" of the check compares the
+    implementation with: in every final state Create has handed out a writer and Close
+    has returned after [Do] did, and exactly what [Do] returned. *)
 Theorem C18_close_is_do_partial : forall cf s,
-  closes cf = true -> reachable cf s -> final cf s = true -> xspec_ok (xobs_of cf s) = true.
-Proof. exact xspec_sound. Qed.
+  closes cf = true -> reachable cf s -> final cf s = true -> xmodel_agrees (xobs_of cf s) = true.
+Proof. exact xmodel_sound. Qed.
 Print Assumptions C18_close_is_do_partial.
+
+(** Agreement with the model entails the property's verdict (which, for a context that
+    is already dead when Create is called, also accepts a Create that refuses with the
+    context's error, nothing sent, nothing left behind). *)
+Theorem C18_xagree_implies_spec_ok : forall dead o, xmodel_agrees o = true -> xspec_ok dead o = true.
+Proof. exact xagree_implies_spec. Qed.
+Print Assumptions C18_xagree_implies_spec_ok.
 
 (** * Requests on disjoint subtrees *)
 
